@@ -9,7 +9,7 @@ ASSUMPTIONS = ["CPython frame objects (f_locals / f_globals of the frame k level
                "(locals, globals) pairs; the correspondence builds real nested callers",
                "the built-in scope is exercised by temporarily adding entries to formulae.transforms.TRANSFORMS"]
 RULE = ("exhaustive: all 2^5 subsets of scopes defining the name x role (argument, callee, dotted callee, doubly and triply dotted callee with decoy siblings, "
-        "backquoted argument, keyword-argument value, argument of a nested call) x env depth 0..3 (and one depth beyond the stack) through four nested callers "
+        "backquoted argument, keyword-argument value (also when the keyword label IS the name), argument of a nested call) x env depth 0..3 (and one depth beyond the stack) through four nested callers "
         "with their own locals and globals; non-trivial = every case; distinct = case")
 EXHAUSTIVE = {"quick": True, "thorough": True}
 CASE_TIMEOUT = 30
@@ -22,7 +22,7 @@ VAL = {"data": 1.0, "builtin": 2.0, "extra": 5.0}
 def gen(rng, tier):
     cases = []
     # kwarg: the name is the VALUE of a keyword argument; nested: it is an argument of a call inside a call
-    for role in ("arg", "callee", "dotted", "dotted2", "dotted3", "bq", "kwarg", "nested"):
+    for role in ("arg", "callee", "dotted", "dotted2", "dotted3", "bq", "kwarg", "kwarg-same", "nested"):
         for r in range(0, 6):
             for subset in itertools.combinations(SCOPES, r):
                 if role == "bq" and "local" in subset:
@@ -51,7 +51,7 @@ def nontrivial(c, mo, obs):
 
 def _name(c):
     return {"arg": "nm", "callee": "nm", "dotted": "mod", "bq": "my nm", "arg-none": "nm", "kwarg": "nm",
-            "nested": "nm", "dotted2": "mod", "dotted3": "mod"}[c["role"]]
+            "nested": "nm", "dotted2": "mod", "dotted3": "mod", "kwarg-same": "nm"}[c["role"]]
 
 
 def expected(c):
@@ -110,7 +110,7 @@ def model_cmd(c):
             gl = [[name, mark("global", 20.0 + j)]] if "global" in d else []
             stack.append([lo, gl])
         data = []
-    role = "arg" if c["role"] in ("arg", "bq", "arg-none", "kwarg", "nested") else "callee"
+    role = "arg" if c["role"] in ("arg", "bq", "arg-none", "kwarg", "kwarg-same", "nested") else "callee"
     path = {"dotted": ["mod", "nm"], "dotted2": ["mod", "sub", "nm"]}.get(c["role"], [name])
     if c["role"] == "dotted3":
         path = ["mod", "sub", "deep", "nm"]
@@ -135,7 +135,7 @@ def _run(c):
     def val(v, scope=None):
         if role == "arg-none":
             return None if scope == none_first else float(v)
-        if role in ("arg", "bq", "kwarg", "nested"):
+        if role in ("arg", "bq", "kwarg", "kwarg-same", "nested"):
             return np.full(n, float(v))
         fn = (lambda x, _v=float(v): x * 0 + _v)
         if role == "dotted2":
@@ -153,15 +153,16 @@ def _run(c):
         cols[name] = np.full(n, VAL["data"])
     df = pd.DataFrame(cols)
     formula = {"arg": "y ~ I(nm)", "callee": "y ~ nm(x)", "dotted": "y ~ mod.nm(x)", "dotted2": "y ~ mod.sub.nm(x)", "dotted3": "y ~ mod.sub.deep.nm(x)", "bq": "y ~ I(`my nm`)",
-               "arg-none": "y ~ sel_(x, nm)", "kwarg": "y ~ keep_(x, w=nm)",
+               "arg-none": "y ~ sel_(x, nm)", "kwarg": "y ~ keep_(x, w=nm)", "kwarg-same": "y ~ same_(x, nm=nm)",
                "nested": "y ~ keep_(x, w=keep_(x, nm))"}[role]
     extra = {name: val(VAL["extra"], "extra")} if "extra" in d else None
     if role == "arg-none":
         extra = dict(extra or {})
         extra["sel_"] = lambda a, b: a if b is None else a * 0 + b
-    if role in ("kwarg", "nested"):
+    if role in ("kwarg", "nested", "kwarg-same"):
         extra = dict(extra or {})
         extra["keep_"] = lambda a, w: np.asarray(a) * 0 + np.asarray(w)
+        extra["same_"] = lambda a, nm: np.asarray(a) * 0 + np.asarray(nm)
     # nested callers, each with its own globals and locals
     inner = None
     for j in range(NFRAMES):
